@@ -6,10 +6,13 @@ package main
 // sibling sites that read the same list in the same way all are.
 
 import (
+	"strings"
+
 	"go/ast"
 	"go/constant"
 	"go/token"
 	"go/types"
+	"golang.org/x/tools/go/packages"
 )
 
 func checkCountedLastElement(r *Run, cg *CallGraph, reach map[*types.Func]*cgEdge) {
@@ -221,4 +224,290 @@ func lenGuarded(r *Run, info *types.Info, fd *ast.FuncDecl, at ast.Node, of stri
 		return true
 	})
 	return found
+}
+
+// checkConstantIndexGuarded (R7): `x[0]` on a slice reads an element that an empty list does not have. Parameter values
+// reach the translator as slices of any length — `where n.name in $names` with names = []any{} is a legitimate call —
+// so on the translation path every constant index into a slice that is a parameter of the function must be under a test
+// of the slice's length. A nil test does not do: an empty, non-nil slice passes it.
+func checkConstantIndexGuarded(r *Run, cg *CallGraph, reach map[*types.Func]*cgEdge) {
+	const rule = "C05-R7-constant-index-guarded"
+	n := 0
+	for fn, fd := range cg.Decl {
+		if fd.Body == nil || reach[fn] == nil || fd.Type.Params == nil {
+			continue
+		}
+		info := cg.PkgOf[fn].TypesInfo
+		params := map[types.Object]bool{}
+		for _, pl := range fd.Type.Params.List {
+			for _, nm := range pl.Names {
+				if obj := info.Defs[nm]; obj != nil {
+					// slices that carry values of the caller: elements of untyped or basic type (the translator's own
+					// lists hold pointers to its model types and are built with the right shape)
+					if sl, isSlice := obj.Type().Underlying().(*types.Slice); isSlice {
+						switch e := sl.Elem().Underlying().(type) {
+						case *types.Interface:
+							if e.NumMethods() == 0 {
+								params[obj] = true
+							}
+						case *types.Basic:
+							if _, named := obj.Type().(*types.Named); !named {
+								params[obj] = true
+							}
+						}
+					}
+				}
+			}
+		}
+		if len(params) == 0 {
+			continue
+		}
+		ast.Inspect(fd.Body, func(x ast.Node) bool {
+			ix, ok := x.(*ast.IndexExpr)
+			if !ok {
+				return true
+			}
+			id, ok := ast.Unparen(ix.X).(*ast.Ident)
+			if !ok || !params[info.Uses[id]] {
+				return true
+			}
+			tv, has := info.Types[ix.Index]
+			if !has || tv.Value == nil || tv.Value.Kind() != constant.Int {
+				return true
+			}
+			c, _ := constant.Int64Val(tv.Value)
+			n++
+			construct := shortFuncName(fn) + ":" + exprString(r.Fset, ix)
+			if lenAtLeast(r, info, fd, ix, id.Name, c+1) {
+				r.Pass(rule, construct, ix.Pos(), "read under a test of len(%s)", id.Name)
+			} else {
+				r.Fail(rule, construct, ix.Pos(), "%s is read without a test that %s has at least %d element(s) (a nil test lets an empty slice through): an empty list value — `in $names` with names = []any{} — makes translation panic with index out of range instead of returning a result or an error", exprString(r.Fset, ix), id.Name, c+1)
+			}
+			return true
+		})
+	}
+	if n == 0 {
+		r.Undecide("C05-R7: no constant index into a slice parameter on the translation path")
+	}
+}
+
+// lenAtLeast: the node is under a condition that implies len(name) >= need, or after an if that leaves the function
+// (or the loop) when len(name) < need; a switch on len(name) with a matching case counts too.
+func lenAtLeast(r *Run, info *types.Info, fd *ast.FuncDecl, at ast.Node, name string, need int64) bool {
+	isLen := func(e ast.Expr) bool {
+		call, ok := ast.Unparen(e).(*ast.CallExpr)
+		if !ok || len(call.Args) != 1 {
+			return false
+		}
+		f, ok := call.Fun.(*ast.Ident)
+		return ok && f.Name == "len" && exprString(r.Fset, call.Args[0]) == name
+	}
+	constOf := func(e ast.Expr) (int64, bool) {
+		tv, has := info.Types[e]
+		if !has || tv.Value == nil || tv.Value.Kind() != constant.Int {
+			return 0, false
+		}
+		return constant.Int64Val(tv.Value)
+	}
+	var implies func(e ast.Expr, neg bool) bool
+	implies = func(e ast.Expr, neg bool) bool {
+		e = ast.Unparen(e)
+		switch t := e.(type) {
+		case *ast.UnaryExpr:
+			if t.Op == token.NOT {
+				return implies(t.X, !neg)
+			}
+		case *ast.BinaryExpr:
+			if t.Op == token.LAND && !neg {
+				return implies(t.X, false) || implies(t.Y, false)
+			}
+			if t.Op == token.LOR && neg {
+				return implies(t.X, true) || implies(t.Y, true)
+			}
+			op, x, y := t.Op, t.X, t.Y
+			if !isLen(x) && isLen(y) {
+				x, y = y, x
+				switch op {
+				case token.LSS:
+					op = token.GTR
+				case token.LEQ:
+					op = token.GEQ
+				case token.GTR:
+					op = token.LSS
+				case token.GEQ:
+					op = token.LEQ
+				}
+			}
+			if !isLen(x) {
+				return false
+			}
+			k, ok := constOf(y)
+			if !ok {
+				return false
+			}
+			if neg {
+				switch op {
+				case token.EQL:
+					op = token.NEQ
+				case token.NEQ:
+					op = token.EQL
+				case token.LSS:
+					op = token.GEQ
+				case token.LEQ:
+					op = token.GTR
+				case token.GTR:
+					op = token.LEQ
+				case token.GEQ:
+					op = token.LSS
+				}
+			}
+			switch op {
+			case token.GTR:
+				return k+1 >= need
+			case token.GEQ:
+				return k >= need
+			case token.EQL:
+				return k >= need
+			case token.NEQ:
+				return k == 0 && need == 1
+			}
+		}
+		return false
+	}
+	for _, l := range pathConditions(fd.Body, at) {
+		if implies(l.Expr, l.Neg) {
+			return true
+		}
+	}
+	found := false
+	ast.Inspect(fd.Body, func(y ast.Node) bool {
+		switch t := y.(type) {
+		case *ast.IfStmt:
+			if t.End() > at.Pos() || len(t.Body.List) == 0 {
+				return true
+			}
+			switch t.Body.List[len(t.Body.List)-1].(type) {
+			case *ast.ReturnStmt, *ast.BranchStmt:
+				if implies(t.Cond, true) {
+					found = true
+				}
+			}
+		case *ast.CaseClause:
+			// switch len(x) { case 2: … x[1] … }
+			if t.Pos() <= at.Pos() && at.End() <= t.End() {
+				for _, e := range t.List {
+					if k, ok := constOf(e); ok && k >= need {
+						found = true
+					}
+				}
+			}
+		}
+		return true
+	})
+	return found
+}
+
+// checkLockFreeMappersReadOnly (R8): many translations run against one kind mapper. A mapper type that has no mutex
+// can only be shared if its lookup methods (Map…) do not write its state — no field assignment, no map element write,
+// directly or through another method of the receiver. A memo or a counter written on the lookup path is a data race,
+// and a translation can be handed the kind IDs another translation asked for.
+func checkLockFreeMappersReadOnly(r *Run, pkgs ...*packages.Package) {
+	const rule = "C05-R8-lock-free-mapper-read-only"
+	n := 0
+	for _, p := range pkgs {
+		if p == nil {
+			continue
+		}
+		info := p.TypesInfo
+		for _, name := range p.Types.Scope().Names() {
+			tn, ok := p.Types.Scope().Lookup(name).(*types.TypeName)
+			if !ok || !strings.Contains(name, "KindMapper") {
+				continue
+			}
+			st, ok := tn.Type().Underlying().(*types.Struct)
+			if !ok {
+				continue
+			}
+			hasMutex := false
+			for i := 0; i < st.NumFields(); i++ {
+				if is, _ := isMutexType(st.Field(i).Type()); is {
+					hasMutex = true
+				}
+			}
+			if hasMutex {
+				continue
+			}
+			methods := methodsOfType(p, name)
+			// writers: methods that assign a receiver field or an element of a receiver map/slice
+			writes := map[string]token.Pos{}
+			for mname, fd := range methods {
+				recv := recvObj(p, fd)
+				ast.Inspect(fd.Body, func(x ast.Node) bool {
+					switch t := x.(type) {
+					case *ast.AssignStmt:
+						for _, lhs := range t.Lhs {
+							e := ast.Unparen(lhs)
+							if ix, ok := e.(*ast.IndexExpr); ok {
+								e = ast.Unparen(ix.X)
+							}
+							if sel, ok := e.(*ast.SelectorExpr); ok {
+								if id, ok := ast.Unparen(sel.X).(*ast.Ident); ok && info.Uses[id] == recv {
+									if _, had := writes[mname]; !had {
+										writes[mname] = t.Pos()
+									}
+								}
+							}
+						}
+					case *ast.IncDecStmt:
+						if sel, ok := ast.Unparen(t.X).(*ast.SelectorExpr); ok {
+							if id, ok := ast.Unparen(sel.X).(*ast.Ident); ok && info.Uses[id] == recv {
+								if _, had := writes[mname]; !had {
+									writes[mname] = t.Pos()
+								}
+							}
+						}
+					}
+					return true
+				})
+			}
+			// closure over calls to other methods of the receiver
+			for changed := true; changed; {
+				changed = false
+				for mname, fd := range methods {
+					if _, w := writes[mname]; w {
+						continue
+					}
+					recv := recvObj(p, fd)
+					ast.Inspect(fd.Body, func(x ast.Node) bool {
+						if call, ok := x.(*ast.CallExpr); ok {
+							if sel, ok := call.Fun.(*ast.SelectorExpr); ok {
+								if id, ok := ast.Unparen(sel.X).(*ast.Ident); ok && info.Uses[id] == recv {
+									if pos, w := writes[sel.Sel.Name]; w {
+										writes[mname] = pos
+										changed = true
+									}
+								}
+							}
+						}
+						return true
+					})
+				}
+			}
+			for mname, fd := range methods {
+				if !strings.HasPrefix(mname, "Map") {
+					continue
+				}
+				n++
+				construct := name + "." + mname
+				if pos, w := writes[mname]; w {
+					r.Fail(rule, construct, pos, "%s.%s writes the mapper's state and %s has no lock: translations that share the mapper race on it, and one can be handed the kind IDs another one resolved", name, mname, name)
+				} else {
+					r.Pass(rule, construct, fd.Pos(), "a lookup that writes nothing")
+				}
+			}
+		}
+	}
+	if n == 0 {
+		r.Undecide("C05-R8: no lock-free kind mapper with Map… methods found")
+	}
 }
